@@ -89,6 +89,12 @@ C03)
   (cd $REPO && go build -o "$W/goose" ./cmd/goose) || { echo "harness error: goose does not build" >&2; exit 3; }
   EXTRA_ARGS="-bin $W/goose"
   ;;
+C07)
+  build "$W/bin" ./cmd/$LC || exit 3
+  (cd $REPO && go build -o "$W/goose" ./cmd/goose) || { echo "harness error: goose does not build" >&2; exit 3; }
+  bridge
+  EXTRA_ARGS="-bin $W/goose -bridge $W/gooseb"
+  ;;
 *) echo "unknown property $ID" >&2; exit 3;;
 esac
 
